@@ -933,6 +933,13 @@ func (c *SpecCtx) evalCall(x SCall) Val {
 		return boolV(app(x.Fn, terms(a)...))
 	case "godiv", "gomod":
 		a := args()
+		if t := terms(a); len(t) == 2 {
+			// same encoding as the executor's (interpreted for literal divisors)
+			if x.Fn == "godiv" {
+				return intV(goDiv(t[0], t[1]))
+			}
+			return intV(goMod(t[0], t[1]))
+		}
 		return intV(app(x.Fn, terms(a)...))
 	case "fresh":
 		v := c.eval(x.Args[0])
